@@ -238,25 +238,32 @@ def _samples(ex, k=3):
 
 
 def _minimise(binpath, item, seq, fee, pct, cls):
-    """delta-debugging by re-execution: drop requests while the same monitor still fails on the real node"""
-    inv = ["C06aStale"] if cls else ["C06a", "C06b"]
+    """delta-debugging by re-execution: drop chunks of requests while the same monitor still fails on a fresh real
+    node; all candidates of a round are executed in one harness run and judged in one TLC run"""
     reqs = [s["req"] for s in seq]
 
-    def fails(rs):
+    def failing(cands):
         d = payments.wd("min")
         steps = os.path.join(d, "steps.ndjson")
-        payments.run_sequences(binpath, [{"chans": item["chans"], "hashes": item["hashes"], "reqs": rs}], steps, fee, pct)
-        return bool(payments.trace_tlc(steps, "ab", fee, pct, "", invs=inv)["violated"])
+        payments.run_sequences(binpath, [{"chans": item["chans"], "hashes": item["hashes"], "reqs": c} for c in cands],
+                               steps, fee, pct)
+        tr = payments.trace_tlc(steps, "ab", fee, pct, "", invs=[], judge="stale" if cls else "any")
+        return set(tr["report"]["bad_seqs"])
 
-    i = 0
-    budget = 25
-    while i < len(reqs) and budget > 0 and len(reqs) > 1:
-        cand = reqs[:i] + reqs[i + 1:]
-        budget -= 1
-        if fails(cand):
-            reqs = cand
+    k = max(1, len(reqs) // 2)
+    rounds = 0
+    while rounds < 30 and len(reqs) > 1:
+        rounds += 1
+        cands = [reqs[:i] + reqs[i + k:] for i in range(0, len(reqs), k)]
+        cands = [c for c in cands if c]
+        bad = failing(cands)
+        if bad:
+            reqs = cands[min(bad)]
+            k = max(1, min(k, len(reqs) // 2))
+        elif k == 1:
+            break
         else:
-            i += 1
+            k = max(1, k // 2)
     return [{"req": r, "ok": True} for r in reqs]
 
 
